@@ -37,6 +37,9 @@ var Families = map[string]func(t *testing.T, seed int64, steps int) *Cluster{
 	"stalerepl":   famStaleRepl,
 	"demoteelect": famDemoteElect,
 	"barrierrace": famBarrierRace,
+	"phases":      famPhases,
+	"transferhang": famTransferHang,
+	"notifyshort": famNotifyShort,
 }
 
 // famSnapMember: snapshots racing with membership changes and a slow FSM, then restarts from the snapshot.
